@@ -15,6 +15,24 @@ def rnd(name, prop, flavour, count, profile="general", extra=(), shards=None, ar
     return j
 
 
+def scale(name, prop, flavour, count, extra=(), arenas=1):
+    # large heaps (hundreds of live objects, gray queues and handle tables past 128 / 256 entries,
+    # slices and strings of several KiB, long garbage runs, many cycles) with bulk operations
+    return rnd(name, prop, flavour, count, profile="scale", length=200, arenas=arenas, extra=["--maxobjs", 500] + list(extra))
+
+
+def dfault_jobs(prop, n, profile):
+    # destructor panics: random histories in which collection calls and arena drops have their k-th
+    # destructor panic, plus the enumeration of EVERY destructor index of every call of clean schedules
+    return [
+        rnd("random-destructor-panics", prop, "dbg", n // 4, profile=profile, extra=["--dfaults"]),
+        rnd("random-destructor-panics", prop, "rel", n // 4, profile=profile, extra=["--dfaults"]),
+        rnd("random-destructor-panics", prop, "asan", n // 32, profile=profile, extra=["--dfaults"]),
+        dict(name="destructor-panic-enum", bin="gcmon", flavour="dbg", args=["faultenum", "--prop", prop, "--dfaults", "--profile", profile, "--count", max(64, n // 250)]),
+        dict(name="destructor-panic-enum", bin="gcmon", flavour="asan", args=["faultenum", "--prop", prop, "--dfaults", "--profile", profile, "--count", max(32, n // 1000)]),
+    ]
+
+
 def scen(name, prop, flavour, table, extra=(), shards=None):
     j = dict(name=name, bin="gcmon", flavour=flavour, args=["scen", "--prop", prop, "--table", table] + list(extra))
     if shards:
@@ -57,6 +75,9 @@ def jobs_c01(tier, seed):
         rnd("random-weak", "C01", "dbg", n // 4, profile="weak"),
         rnd("random-roots", "C01", "dbg", n // 4, profile="roots"),
         rnd("random", "C01", "asan", n // 8),
+        scale("scale", "C01", "dbg", n // 80),
+        scale("scale", "C01", "rel", n // 20),
+        scale("scale", "C01", "asan", n // 320),
         scen("barrier-matrix", "C01", "dbg", "c06"),
         scen("barrier-matrix", "C01", "rel", "c06"),
         miri_rnd("C01", tier),
@@ -77,6 +98,13 @@ def jobs_simple(prop, profile="general", matrix=None, miri_tables=None):
         ]
         if profile != "general":
             js.append(rnd("random-general", prop, "dbg", n // 2))
+        sx = {"C10": ["--faults"], "C14": ["--handles"]}.get(prop, [])
+        js.append(scale("scale", prop, "dbg", n // 80, extra=sx))
+        js.append(scale("scale", prop, "rel", n // 20, extra=sx))
+        js.append(scale("scale", prop, "asan", n // 320, extra=sx))
+        if prop in ("C04", "C05"):
+            js.extend(dfault_jobs(prop, n, profile))
+            js.append(scale("scale-destructor-panics", prop, "rel", n // 40, extra=["--dfaults"]))
         if prop == "C02":
             # end-to-end exactness through every provided container and through trait objects:
             # weakly held targets must be gone after two cycles, strongly held ones alive
@@ -113,6 +141,7 @@ def jobs_c09(tier, seed):
         rnd("pace-storm", "C09", "rel", n, profile="pace", length=300, extra=["--pacing", 3, "--storm"]),
         rnd("random", "C09", "dbg", n * 5),
         rnd("random", "C09", "rel", n * 5),
+        scale("scale", "C09", "rel", n // 4, extra=["--pacing", 3]),
     ]
 
 
@@ -126,6 +155,8 @@ def jobs_c11(tier, seed):
         rnd("random-faults", "C11", "dbg", n, extra=["--faults"]),
         rnd("random-faults", "C11", "rel", n, extra=["--faults"]),
         rnd("random-faults", "C11", "asan", n // 8, extra=["--faults"]),
+        scale("scale-faults", "C11", "dbg", n // 160, extra=["--faults"]),
+        scale("scale-faults", "C11", "rel", n // 40, extra=["--faults"]),
         lay("builders", "C11", "dbg", "builders"),
         lay("builders", "C11", "asan", "builders"),
     ] + ([miri("fault-enum-small", "gcmon", ["faultenum", "--prop", "C11", "--count", 16, "--len", 16, "--maxpos", 3, "--notrack"])] if tier == T else [])
@@ -139,6 +170,7 @@ def jobs_c20(tier, seed):
         rnd("multi2", "C20", "rel", n, profile="multi", arenas=2),
         rnd("multi2", "C20", "asan", n // 8, profile="multi", arenas=2),
         rnd("multi2-roots", "C20", "dbg", n // 2, profile="roots", arenas=2),
+        scale("multi2-scale", "C20", "rel", n // 40, arenas=2, extra=["--handles"]),
     ] + ([miri_rnd("C20", tier, profile="multi", arenas=2)] if tier == T else [])
 
 
@@ -173,6 +205,12 @@ def jobs_c15(tier, seed):
 
 def pregen_c15(tier, seed, generate):
     generate(seed, 60, 60 if tier == Q else 940)
+
+
+def pregen_c16(tier, seed, generate):
+    # C16 does not use the derive corpus: keep the generated file small so that the 24 feature
+    # builds of tracerec stay cheap
+    generate(seed, 60, 60)
 
 
 def jobs_c16(tier, seed):
@@ -251,6 +289,8 @@ CHECKS = {
             scen("barrier-matrix", "C06", "asan", "c06"),
             rnd("random", "C06", "dbg", size(tier, 80_000, 800_000)),
             rnd("random", "C06", "rel", size(tier, 80_000, 800_000)),
+            scale("scale", "C06", "dbg", size(tier, 1_000, 10_000)),
+            scale("scale", "C06", "rel", size(tier, 4_000, 40_000)),
             miri_scen("C06", "c06", tier),
         ],
         rule="bounded-exhaustive scenario matrix: barrier path x child state x root layout x EVERY step count k of a whole cycle x drain mode; act, isolate, drain, two more full cycles; non-trivial = the hook snapshot classified a store made while not Sleeping; verdict by M-live / M-weak / M-panic",
@@ -340,6 +380,7 @@ CHECKS = {
     "C16": dict(
         level="exploration",
         jobs=jobs_c16,
+        pregen=pregen_c16,
         custom=probes("C16"),
         rule="table over every provided Collect impl x pointer kind (Gc / GcWeak) x type-parameter position (keys, values, Ok/Err, each of 16 tuple positions, header vs element) x sizes {0,1,2,7,33} (wrapped VecDeque, spilled SmallVec, SlotMap with a removed slot); recorded multiset = inserted multiset with the right strength; NEEDS_TRACE for pointer-bearing and pointer-free instantiations; end-to-end survival of one strong and one weak target per container; feature sets {all five optional, none, no-std} (24 sets in thorough: none, all, each single feature, each all-but-one, with and without std); non-trivial = case holds at least one pointer",
         floors={"trace_comparisons": 1_500, "needs_trace_checks": 150},
